@@ -149,7 +149,7 @@ func (f *decompressor) step() (err error) {
 			state.input, err = f.rBuf.Peek(f.rBuf.Buffered())
 		}
 		f.peekSize = len(state.input)
-		if err != nil && err != bufio.ErrBufferFull && err != io.EOF {
+		if err != nil && err != io.EOF {
 			if f.peekSize <= int(state.bitsLen/8) {
 				return err
 			}
